@@ -20,6 +20,17 @@ def spaces(ctx):
     s4 = list(gen.uniq(gen.d_trig()))
     s5 = list(gen.uniq(gen.d_emph(7)))
     s6 = gen.repo_corpus(core.REPO)
+    # a link reference definition that starts inside a freshly opened list and fails (the rewind of the parser state), and empty
+    # list items inside containers
+    lrdl = ["- a", "* [foo]:", "+ [foo]:", "1. [foo]:", "[foo]:", "", "abc", "/url", "- [foo]:", "[foo]: /u \"t", "> [foo]:"]
+    s7 = list(gen.d_line(lrdl, 4, final_newline=(True,)))
+    ei = ["> - a", "> -", "> 1. a", "> 2.", "> 3. c", "- a", "-", "  -", "> > -", "- > -", "1.", "> -  ", "a", ""]
+    s8 = list(gen.d_line(ei, 3))
+    if ctx.tier == "quick":
+        return {"pool+D_line(V_ALL,2)": gen.sample(s1, 2500, ctx.seed), "D_line(cont+inline,3)": gen.sample(s2, 2500, ctx.seed + 1), "D_char(12,4)": gen.sample(s3, 1500, ctx.seed + 2),
+                "trigger-lines": gen.sample(s4, 1500, ctx.seed + 3), "emphasis-runs(7)": gen.sample(s5, 12000, ctx.seed + 4), "repository-corpus": gen.sample(s6, 1500, ctx.seed + 5),
+                "lrd-in-lists(4)": gen.sample(s7, 2000, ctx.seed + 6), "empty-items(3)": gen.sample(s8, 1500, ctx.seed + 7)}
+    return {"pool+D_line(V_ALL,2)": s1, "D_line(cont+inline,3)": s2, "D_char(12,4)": s3, "trigger-lines": s4, "emphasis-runs(7)": s5, "repository-corpus": s6, "lrd-in-lists(4)": s7, "empty-items(3)": s8}
     if ctx.tier == "quick":
         return {"pool+D_line(V_ALL,2)": gen.sample(s1, 2500, ctx.seed), "D_line(cont+inline,3)": gen.sample(s2, 2500, ctx.seed + 1), "D_char(12,4)": gen.sample(s3, 1500, ctx.seed + 2),
                 "trigger-lines": gen.sample(s4, 1500, ctx.seed + 3), "emphasis-runs(7)": gen.sample(s5, 12000, ctx.seed + 4), "repository-corpus": gen.sample(s6, 1500, ctx.seed + 5)}
